@@ -327,8 +327,16 @@ func genStruct(t *rapid.T, cfg GenConfig, depth int) *Type {
 			}
 		}
 		f := &Field{GoName: "F" + strconv.Itoa(i), TagKey: key, Name: string(rune('a' + i))}
-		if key == "header" {
-			f.Name = "x-" + f.Name
+		switch key {
+		case "header": // header names are case-insensitive: the tag may spell them in any case
+			f.Name = rapid.SampledFrom([]string{"x-", "x-", "X-", "x-"}).Draw(t, "hprefix") + f.Name
+			if rapid.IntRange(0, 3).Draw(t, "hupper") == 0 {
+				f.Name = f.Name[:2] + strings.ToUpper(f.Name[2:])
+			}
+		case "json": // exact match in JSON bodies, case-insensitive in configuration
+			if rapid.IntRange(0, 3).Draw(t, "upper") == 0 {
+				f.Name = strings.ToUpper(f.Name)
+			}
 		}
 		f.T = genFieldType(t, cfg, key, depth)
 		genOptions(t, f)
@@ -866,6 +874,35 @@ func sortedKeys[V any](m map[string]V) []string {
 	return ks
 }
 
+// needsValue reports whether an instance of the struct spec must be supplied for the
+// input to meet every declared constraint: some scalar is neither optional nor
+// defaulted, an either-or dependency needs one of its two fields, or a nested
+// struct/container without an optional form is declared (containers are always
+// supplied by the generator unless optional).
+func needsValue(st *Type) bool {
+	for _, f := range st.Fields {
+		d := f.T.Deref()
+		switch {
+		case strings.HasPrefix(f.Dep, "!"):
+			return true
+		case f.IsOptional():
+		case d.IsScalar():
+			if !f.HasDefault {
+				return true
+			}
+		case f.T.Kind == reflect.Struct:
+			if needsValue(d) {
+				return true
+			}
+		default:
+			// containers, and (domain cut) pointers to structs: inside a struct that is
+			// left out the code counts an option-less pointer-to-struct field as required
+			return true
+		}
+	}
+	return false
+}
+
 // fillObject writes a valid instance of the struct spec.  At the top level the
 // fields go to docs[f.TagKey]; below, everything goes to obj (a JSON object).
 func (g *inputGen) fillObject(spec *Type, docs map[string]map[string]any, obj map[string]any, path string) {
@@ -882,6 +919,11 @@ func (g *inputGen) fillObject(spec *Type, docs map[string]map[string]any, obj ma
 			continue
 		}
 		mayBeAbsent := f.Optional || f.HasDefault
+		if d := f.T.Deref(); d.Kind == reflect.Struct && !needsValue(d) {
+			// a struct none of whose fields has to be supplied may be left out altogether:
+			// no constraint is unmet, the defaults are filled in
+			mayBeAbsent = true
+		}
 		p := true
 		if mayBeAbsent {
 			p = rapid.IntRange(0, 2).Draw(g.t, "present") != 0
@@ -978,7 +1020,7 @@ func (g *inputGen) violate(in *Input) bool {
 		s := s
 		k := s.f.T.Deref().Kind
 		_, present := s.obj[s.f.Name]
-		required := !s.f.IsOptional() && !s.f.HasDefault
+		required := (!s.f.IsOptional() || DepMakesRequired(s.f, s.obj)) && !s.f.HasDefault
 		if required && present {
 			cands = append(cands,
 				cand{func() { delete(s.obj, s.f.Name) }, "missing " + s.path, s.f.NumOptions()},
@@ -1181,6 +1223,114 @@ func renderJSON(b *strings.Builder, v any) {
 	default:
 		fmt.Fprintf(b, "%q", fmt.Sprint(v))
 	}
+}
+
+// FoldDoc returns doc as a case-insensitive reader (the configuration loader) sees
+// it: every key that names a struct field in any spelling is re-spelled as the
+// field's tag name.  ok=false when two keys of one object fold onto the same field
+// (which of them the loader keeps is not specified).
+func FoldDoc(spec *Type, doc map[string]any) (map[string]any, bool) {
+	byLower := map[string]*Field{}
+	for _, f := range spec.Fields {
+		byLower[strings.ToLower(f.Name)] = f
+	}
+	out := map[string]any{}
+	for k, v := range doc {
+		f := byLower[strings.ToLower(k)]
+		if f == nil {
+			out[k] = v
+			continue
+		}
+		if _, dup := out[f.Name]; dup {
+			return nil, false
+		}
+		fv, ok := foldValue(f.T, v)
+		if !ok {
+			return nil, false
+		}
+		out[f.Name] = fv
+	}
+	return out, true
+}
+
+func foldValue(ty *Type, v any) (any, bool) {
+	d := ty.Deref()
+	switch vv := v.(type) {
+	case map[string]any:
+		switch d.Kind {
+		case reflect.Struct:
+			return FoldDoc(d, vv)
+		case reflect.Map:
+			out := map[string]any{}
+			for k, e := range vv {
+				fe, ok := foldValue(d.Elem, e)
+				if !ok {
+					return nil, false
+				}
+				out[k] = fe
+			}
+			return out, true
+		}
+	case []any:
+		if d.Kind == reflect.Slice {
+			out := make([]any, len(vv))
+			for i, e := range vv {
+				fe, ok := foldValue(d.Elem, e)
+				if !ok {
+					return nil, false
+				}
+				out[i] = fe
+			}
+			return out, true
+		}
+	}
+	return v, true
+}
+
+// RecaseDoc returns a copy of doc in which the keys that name struct fields (not map
+// keys) are re-spelled by recase; the configuration loader matches keys
+// case-insensitively, so the copy denotes the same input there.
+func RecaseDoc(spec *Type, doc map[string]any, recase func(string) string) map[string]any {
+	byName := map[string]*Field{}
+	for _, f := range spec.Fields {
+		byName[f.Name] = f
+	}
+	out := map[string]any{}
+	for k, v := range doc {
+		f := byName[k]
+		if f == nil {
+			out[k] = deepCopy(v)
+			continue
+		}
+		out[recase(k)] = recaseValue(f.T, v, recase)
+	}
+	return out
+}
+
+func recaseValue(ty *Type, v any, recase func(string) string) any {
+	d := ty.Deref()
+	switch vv := v.(type) {
+	case map[string]any:
+		switch d.Kind {
+		case reflect.Struct:
+			return RecaseDoc(d, vv, recase)
+		case reflect.Map:
+			out := map[string]any{}
+			for k, e := range vv {
+				out[k] = recaseValue(d.Elem, e, recase)
+			}
+			return out
+		}
+	case []any:
+		if d.Kind == reflect.Slice {
+			out := make([]any, len(vv))
+			for i, e := range vv {
+				out[i] = recaseValue(d.Elem, e, recase)
+			}
+			return out
+		}
+	}
+	return deepCopy(v)
 }
 
 // RenderTOML renders a generic document as TOML, or ok=false when TOML cannot
@@ -1578,7 +1728,10 @@ func Check(spec *Type, docs map[string]map[string]any, target reflect.Value) []s
 	return c.out
 }
 
-type checker struct{ out []string }
+type checker struct {
+	out         []string
+	depRequired bool // the field being checked is not optional in this input (dependency option)
+}
 
 func (c *checker) fail(format string, a ...any) {
 	c.out = append(c.out, fmt.Sprintf(format, a...))
@@ -1591,8 +1744,24 @@ func (c *checker) structure(spec *Type, docs map[string]map[string]any, obj map[
 			o = docs[f.TagKey]
 		}
 		raw, present := o[f.Name]
+		c.depRequired = DepMakesRequired(f, o)
 		c.field(f, raw, present, v.Field(i), path+"."+f.Name)
 	}
+}
+
+// DepMakesRequired resolves a dependency option against the object the field is
+// read from: `optional=b` leaves the field optional only while b is absent, and
+// `optional=!b` only while b is supplied.  (A null-valued b decides nothing.)
+func DepMakesRequired(f *Field, obj map[string]any) bool {
+	if f.Dep == "" {
+		return false
+	}
+	if strings.HasPrefix(f.Dep, "!") {
+		_, on := obj[f.Dep[1:]]
+		return !on
+	}
+	v, on := obj[f.Dep]
+	return on && v != nil
 }
 
 func derefValue(v reflect.Value) (reflect.Value, bool) {
@@ -1672,12 +1841,16 @@ func (c *checker) field(f *Field, raw any, present bool, v reflect.Value, path s
 
 func (c *checker) scalarField(f *Field, k reflect.Kind, raw any, present bool, v reflect.Value, path string) {
 	if !present || raw == nil {
-		if !f.IsOptional() && !f.HasDefault {
+		if (!f.IsOptional() || c.depRequired) && !f.HasDefault {
 			what := "absent"
 			if present {
 				what = "null"
 			}
-			c.fail("(a) %s is neither optional nor defaulted and was %s, yet the input was accepted", path, what)
+			why := ""
+			if c.depRequired {
+				why = " (optional=" + f.Dep + " does not make it optional in this input)"
+			}
+			c.fail("(a) %s is neither optional nor defaulted%s and was %s, yet the input was accepted", path, why, what)
 			return
 		}
 		if present {
